@@ -1097,6 +1097,17 @@ def _check_row_aligned_inputs(group_key, values, mask):
         )
 
 
+def _uniform_chunks(values):
+    """
+    The row-aligned kernels iterate over the tuple of value chunks, which numba only
+    allows when all chunks have one array type: zero-copy (read-only) Arrow chunks next
+    to copied (writable) ones must be brought to the same kind first.
+    """
+    if len({chunk.flags.writeable for chunk in values}) > 1:
+        values = tuple(np.require(chunk, requirements="W") for chunk in values)
+    return values
+
+
 # ===== Rolling Aggregation Methods =====
 
 
@@ -1170,6 +1181,7 @@ def _apply_rolling(
     values = _val_to_numpy(values, as_list=True)
     _check_row_aligned_inputs(group_key, values, mask)
     values, orig_dtypes = zip(*list(map(_cast_timestamps_to_ints, values)))
+    values = _uniform_chunks(values)
     orig_dtype = orig_dtypes[0]
     values_are_times = orig_dtype.kind in "mM"
 
@@ -1776,6 +1788,7 @@ def _apply_cumulative(
     values = _val_to_numpy(values, as_list=True)
     _check_row_aligned_inputs(group_key, values, mask)
     values, orig_dtypes = zip(*list(map(_cast_timestamps_to_ints, values)))
+    values = _uniform_chunks(values)
     orig_dtype = orig_dtypes[0]
 
     target = _build_target_for_groupby(
